@@ -446,7 +446,7 @@ CHECKS.update({
 })
 
 add_par_part("C05", [("cutsweep", "allimpacted", 6, 40, 120, 3, 3), ("cutsweep", "allimpacted", 7, 15, 60, 3, 4), ("free", "allimpacted", 7, 40, 150, 6, 8)])
-add_par_part("C02", [("sched", "allimpacted", 6, 60, 200, 4, 3), ("cutsweep", "allimpacted", 6, 15, 50, 2, 3), ("free", "allimpacted", 6, 20, 80, 4, 8, "--sweep", 250)])
+add_par_part("C02", [("sched", "allimpacted", 6, 60, 200, 4, 3), ("cutsweep", "allimpacted", 6, 15, 50, 2, 3), ("free", "allimpacted", 6, 20, 80, 4, 8, "--sweep", 250), ("free", "reconv", 8, 15, 50, 2, 4, "--sweep", 400)])
 add_par_part("C09", [("sched", "allimpacted", 6, 80, 250, 4, 3) + tuple(FOCUS2), ("sched", "reconv", 8, 300, 700, 4, 3) + tuple(FOCUS), ("sched", "reconv", 8, 200, 500, 4, 3) + tuple(FOCUS2), ("sched", "reconv", 7, 150, 400, 4, 4) + tuple(FOCUS2)])
 add_par_part("C14", [("primal", "allimpacted", 6, 250, 600, 6, 3), ("primal", "allimpacted", 7, 80, 250, 6, 4)])
 
